@@ -146,6 +146,9 @@ func toGo(v Value) interface{} {
 		return privHolder{limit: &n, inner: struct{ p *int }{&n}, m: map[string]*int{"k": &n}, N: v.I}
 	case "time":
 		return time.Unix(int64(v.I), 0).UTC()
+	case "ptrlist": // a list of pointers to structs: its text must not show addresses
+		n := v.I
+		return []*ptrHolder{{P: &n, N: v.I}, {P: &n, N: v.I + 1}}
 	case "ptrstruct": // a struct with a pointer field: its text must not show the address
 		n := v.I
 		return ptrHolder{P: &n, N: v.I}
@@ -159,6 +162,11 @@ func toGo(v Value) interface{} {
 		return make(chan int)
 	case "null":
 		return nil
+	case "errobj":
+		return errObject{}
+	case "nilptr":
+		var p *int
+		return p
 	case "named":
 		return namedScalar(v)
 	case "bool":
@@ -298,6 +306,19 @@ func toGo(v Value) interface{} {
 			out := map[int64]string{}
 			for i, k := range v.Ks {
 				out[1234567890123456700+int64(k.I)] = textOf(v.Vs[i].S, nil, false)
+			}
+			return out
+		case "mii": // interface keys of the kinds given (int, string, decimal -> float64, named -> int64 ...)
+			out := map[interface{}]interface{}{}
+			idx := make([]int, len(v.Ks))
+			for i := range idx {
+				idx[i] = i
+				if reverseInsertion {
+					idx[i] = len(v.Ks) - 1 - i
+				}
+			}
+			for _, i := range idx {
+				out[toGo(v.Ks[i])] = toGo(v.Vs[i])
 			}
 			return out
 		case "mia":
@@ -472,6 +493,11 @@ type namedString string
 type errValue struct{ s string }
 
 func (e errValue) Error() string { return e.s }
+
+// errObject: its method Name fails (a method of a Go value read as an attribute can fail the render)
+type errObject struct{ X int }
+
+func (errObject) Name() (string, error) { return "", errSentinel }
 
 // S8: value-receiver method Name, pointer-receiver method Amend(string) that sorts before it
 type S8 struct{ X int }
